@@ -76,6 +76,16 @@ def conditions(tier):
                         if k not in foreign:
                             foreign.append(k)
             cs.append(Cond(M, "foreign_keyword", {"dialect": d, "foreign": foreign, "maxlen": 1}, T=3000))
+    # reused matcher, earlier document in a dialect that types one of this dialect's step keywords differently (pairs computed from the table)
+    from . import _kwpairs
+    for d, o in _kwpairs.colliding_pairs():
+        for mode in (("history",) if tier == "quick" else ("history", "header", "history2")):
+            cs.append(Cond(M, "keyword_in_role", {"dialect": d, "mode": mode, "other": o, "maxlen": 0, "steps_only": True}, T=900, reach=["in-role"],
+                           label="kw.step_keywords[%s after %s,%s]" % (d, o, mode)))
+    # a header naming an unknown dialect leaves the dialect in force (and the dialect a later token / feature reports) untouched
+    for d, o in (("en", "fr"), ("fr", "en")):
+        for mode in ("badheader", "badheader-same-doc", "badheader-after-switch"):
+            cs.append(Cond(M, "keyword_in_role", {"dialect": d, "mode": mode, "other": o, "maxlen": 0}, T=900, reach=["in-role"]))
     # header spellings
     for slots in ([0, 1], [1, 2], [2, 3], [3, 4], [0, 4]):
         for term in (["\n"] if tier == "quick" else ["", "\n", "\r\n"]):
